@@ -382,6 +382,14 @@ CLAIMED["C18"]["text"] += (" The transport object is read from the code too (too
                            "(connect_eq with the five subscriptions in order, read_eq, write_eq with exactly one unretained publish, handle_incoming_eq, genRun_state).")
 CLAIMED["C18"]["technique"] += " + MQTT client/transport methods translated from the Python AST with equality proofs (MqttObjectBodiesEq)"
 
+NODESCHEMA_TIE = (" What turns one JSON object into a Node is read from the code as well (tools/translate_nodeschema.py -> Generated/NodeSchemaBodies.lean over "
+                  "Model/LitNodeSchema.lean: both pre_load compatibility hooks, both post_load hooks, Node.__init__ and Child.__init__) and Lemmas/NodeSchemaBodiesEq.lean proves "
+                  "them equal to the model's (pre-load hooks for every JSON value, up to insertion order of different keys, which marshmallow provably never reads) and "
+                  "loadFile_through_generated: Persist.loadFile is the two try statements around the generated loop.")
+for _k in ("C13", "C14"):
+    CLAIMED[_k]["text"] += NODESCHEMA_TIE
+    CLAIMED[_k]["technique"] += " + schema hooks and constructors translated from the Python AST with equality proofs (NodeSchemaBodiesEq)"
+
 for pid, c in CLAIMED.items():
     checks.append({
         "property_id": pid,
